@@ -15,6 +15,11 @@
          or an accumulation) in the renderer, its class, a module-level object or a mutable default *and reads it back
          on the render path*.  A request-independent, idempotent write (a cache of configuration) is fine; so is a
          write nothing on the render path reads.
+  R17.i  200 status / a response on every path / raises only for an explicitly requested unknown format.
+  R17.k  provenance and precedence of the negotiated mime (format parameter, Accept header, default).
+  R17.l  JSON bodies: the renderer's own encoder applied to the endpoint result; JSONP padding; stream re-chunkers.
+  R17.m  optional FunctionBuilder attributes (pinned boltons) are used as text only behind a presence test.
+(each described at its check_* function)
 """
 import ast
 
@@ -1543,3 +1548,158 @@ def check_json_bodies(rep, repo, base):
                   simple, c)
     if not n_d:
         raise AnalysisError('_serialize_to_resp: the calls of json_render / tabular_render were not found')
+
+
+# ---------------------------------------------------------------------------------------------- R17.m: optional builder attributes
+def nullable_builder_attrs(repo):
+    """Attributes of boltons' FunctionBuilder that are None unless the function supplies a value -- read from the pinned
+    source: the entries of ``_defaults`` / ``_argspec_defaults`` whose default factory is ``lambda: None`` (``__init__``
+    replaces a missing / None keyword by the factory's result; ``from_func`` fills ``module`` with
+    ``getattr(func, '__module__', None)``)."""
+    m = repo.try_mod('boltons.funcutils')
+    if m is None or 'FunctionBuilder' not in m.classes:
+        raise AnalysisError('boltons.funcutils.FunctionBuilder not found')
+    out = set()
+
+    def scan(body):
+        for st in body:
+            if isinstance(st, ast.If):
+                scan(st.body)
+                scan(st.orelse)
+            elif isinstance(st, ast.Assign) and isinstance(st.value, ast.Dict) and \
+                    any(isinstance(t, ast.Name) and t.id in ('_defaults', '_argspec_defaults') for t in st.targets):
+                for k, v in zip(st.value.keys, st.value.values):
+                    if isinstance(k, ast.Constant) and isinstance(k.value, str) and isinstance(v, ast.Lambda) and \
+                            isinstance(v.body, ast.Constant) and v.body.value is None:
+                        out.add(k.value)
+    scan(m.classes['FunctionBuilder'].node.body)
+    if 'module' not in out:
+        raise AnalysisError('boltons FunctionBuilder: the optional attributes (default factory "lambda: None") were not found')
+    return out
+
+
+def _returns_builder(repo, f, call, depth=0):
+    """The call yields a FunctionBuilder: FunctionBuilder(...) / FunctionBuilder.from_func(...) or a clastic function one of
+    whose returns is such a call."""
+    fn = call.func
+    if isinstance(fn, ast.Attribute) and fn.attr == 'from_func' and norm(fn.value).rpartition('.')[2] == 'FunctionBuilder':
+        return True
+    if isinstance(fn, ast.Name) and fn.id == 'FunctionBuilder':
+        return True
+    if depth >= 2 or not isinstance(fn, ast.Name):
+        return False
+    try:
+        kind, m, obj = repo.resolve(f.mod, fn.id)
+    except Exception:
+        return False
+    if kind != 'func' or m is None or m.external or not isinstance(obj.node, ast.FunctionDef):
+        return False
+    from ..effects import Flow
+    gfl = Flow(obj)
+    for r in returns_of(obj):
+        if r.value is None:
+            continue
+        for lf in gfl.leaves(r.value, r):
+            if isinstance(lf.value, ast.Call) and _returns_builder(repo, obj, lf.value, depth + 1):
+                return True
+    return False
+
+
+def check_optional_labels(rep, repo, base, roots):
+    """R17.m: an optional attribute of a FunctionBuilder (None for callables that do not supply it: ``module`` of a function
+    compiled without ``__name__`` in its globals, ``varargs`` / ``varkw`` / ``defaults`` of most functions) is used as text
+    on the render paths -- joined, concatenated, dereferenced -- only behind a test that it is there."""
+    from ..effects import Flow
+    from .common import implies_present
+    rep.rule('R17.m', 'optional FunctionBuilder attributes (pinned boltons: default factory "lambda: None") are joined / concatenated / '
+                      'dereferenced on the render paths only behind a presence test')
+    nullable = nullable_builder_attrs(repo)
+    scope = [f for f in render_scope(repo, roots) if not f.mod.external]
+    n_uses = 0
+    for f in scope:
+        mod = f.mod
+        fl = None
+        joined = None
+        for n in walk_body(f.node):
+            if not (isinstance(n, ast.Attribute) and n.attr in nullable and isinstance(n.ctx, ast.Load) and isinstance(n.value, ast.Name)):
+                continue
+            fl = fl or Flow(f)
+            at = stmt_of(mod, n)
+            ds = fl.reaching(n.value.id, at)
+            if not ds or not all(d.kind == 'assign' and d.idx is None and isinstance(d.value, ast.Call) and
+                                 _returns_builder(repo, f, d.value) for d in ds):
+                continue
+            if joined is None:
+                joined = set()          # locals that end up as the operand of a str.join
+                for c in walk_body(f.node):
+                    if isinstance(c, ast.Call) and isinstance(c.func, ast.Attribute) and c.func.attr == 'join' and len(c.args) == 1:
+                        joined.update(x.id for x in ast.walk(c.args[0]) if isinstance(x, ast.Name))
+            text = norm(n)
+            # the value itself, or a local that is exactly this attribute
+            carriers = [(n, text)]
+            par = mod.parents.get(n)
+            if isinstance(par, ast.Assign) and par.value is n and len(par.targets) == 1 and isinstance(par.targets[0], ast.Name):
+                alias = par.targets[0].id
+                if len(fl.defs.get(alias, [])) == 1:
+                    carriers = [(x, alias) for x in walk_body(f.node) if isinstance(x, ast.Name) and x.id == alias and isinstance(x.ctx, ast.Load)]
+            for node, name in carriers:
+                use = _text_use(mod, node, joined)
+                if use is None:
+                    continue
+                n_uses += 1
+                cs = list(conds(f, node)) + _inline_guards(mod, node)
+                ok = implies_present(cs, name) or implies_present(cs, text)
+                rep.check('R17.m', fkey(f, '%s: %s' % (text, use)), ok,
+                          '%s is used as text (%s) behind a presence test' % (text, use) if ok else
+                          '%s in %s: %s is %s without a test that it is there -- a FunctionBuilder has %s = None when the callable does '
+                          'not supply it (boltons: default factory "lambda: None"; e.g. the module of a function built by exec() into a '
+                          'bare namespace): TypeError / AttributeError while the heading of the HTML table is built, a 500 instead of the '
+                          'table (conditions: %s)' % (short(stmt_of(mod, node), 50), f.qualname, text, use, n.attr,
+                                                      '; '.join(cond_texts(cs)) or 'none'), mod, node)
+    rep.ok('R17.m', '%s::render paths: optional builder attributes' % SIMPLE,
+           '%d function(s) scanned, optional attributes %s, %d use(s) as text' % (len(scope), sorted(nullable), n_uses), repo.mod(SIMPLE), None)
+
+
+def _text_use(mod, node, joined):
+    """How an expression is used as text / dereferenced by its parent; None for uses that tolerate None (tests, defaults,
+    arguments of unknown calls, %-formatting, being returned)."""
+    par = mod.parents.get(node)
+    if isinstance(par, ast.BoolOp) and isinstance(par.op, ast.Or) and par.values[-1] is not node:
+        return None                 # x or '<default>'
+    if isinstance(par, ast.Attribute) and par.value is node:
+        gp = mod.parents.get(par)
+        return 'dereferenced (.%s%s)' % (par.attr, '()' if isinstance(gp, ast.Call) and gp.func is par else '')
+    if isinstance(par, ast.Subscript) and par.value is node:
+        return 'subscripted'
+    if isinstance(par, ast.BinOp) and isinstance(par.op, ast.Add):
+        return 'concatenated (+)'
+    if isinstance(par, ast.AugAssign) and par.value is node and isinstance(par.op, ast.Add):
+        return 'concatenated (+=)'
+    if isinstance(par, (ast.For, ast.comprehension)) and par.iter is node:
+        return 'iterated'
+    if isinstance(par, ast.Call) and node in par.args:
+        fn = par.func
+        if isinstance(fn, ast.Name) and fn.id in ('len', 'iter', 'sorted', 'list', 'tuple', 'set'):
+            return 'passed to %s()' % fn.id
+        if isinstance(fn, ast.Attribute) and fn.attr == 'join':
+            return 'joined'
+        if isinstance(fn, ast.Attribute) and fn.attr in ('append', 'insert', 'add') and isinstance(fn.value, ast.Name) and fn.value.id in joined:
+            return 'put into %s, which is joined' % fn.value.id
+        return None
+    if isinstance(par, (ast.List, ast.Tuple, ast.Set)):
+        gp = mod.parents.get(par)
+        while isinstance(gp, ast.BinOp) and isinstance(gp.op, ast.Add):
+            par, gp = gp, mod.parents.get(gp)
+        if isinstance(gp, ast.Call) and isinstance(gp.func, ast.Attribute) and gp.func.attr == 'join' and par in gp.args:
+            return 'joined'
+        if isinstance(gp, ast.Call) and isinstance(gp.func, ast.Attribute) and gp.func.attr == 'extend' and \
+                isinstance(gp.func.value, ast.Name) and gp.func.value.id in joined:
+            return 'put into %s, which is joined' % gp.func.value.id
+        if isinstance(gp, (ast.Assign, ast.AugAssign)):
+            tg = gp.targets if isinstance(gp, ast.Assign) else [gp.target]
+            if any(isinstance(t, ast.Name) and t.id in joined for t in tg):
+                return 'put into %s, which is joined' % [t.id for t in tg if isinstance(t, ast.Name)][0]
+        return None
+    if isinstance(par, ast.Compare) and any(c is node for c in par.comparators) and any(isinstance(op, (ast.In, ast.NotIn)) for op in par.ops):
+        return 'searched (in)'
+    return None
